@@ -243,6 +243,51 @@ func (p *c12) storeExactly(x *res, a, b string) {
 			func(it val.Item) (val.V, bool) { return refmodel.Path{{Name: "p"}, {Name: "deep"}, {IsIdx: true, Idx: 0}}.Resolve(it) }},
 		{"add-creates", &refmodel.Update{Actions: []refmodel.Action{{Kind: "ADD", Path: refmodel.P("p"), RHS: uv(":v")}}}, val.Item{":v": val.Num(b)}, top("p")},
 	}
+	// number SETS that are only stored or copied: {a, b} as a value, as a copy of an attribute, as the set an ADD
+	// creates, and the set that remains after DELETE removed another member
+	if !val.NumEqual(a, b) {
+		nsab := val.NS(a, b)
+		nsForms := []form{
+			{"set-ns-value", &refmodel.Update{Actions: []refmodel.Action{{Kind: "SET", Path: refmodel.P("p"), RHS: uv(":v")}}}, val.Item{":v": nsab}, top("p")},
+			{"copy-ns", &refmodel.Update{Actions: []refmodel.Action{{Kind: "SET", Path: refmodel.P("p"), RHS: up(refmodel.P("nsab"))}}}, val.Item{}, top("p")},
+			{"add-creates-ns", &refmodel.Update{Actions: []refmodel.Action{{Kind: "ADD", Path: refmodel.P("p"), RHS: uv(":v")}}}, val.Item{":v": nsab}, top("p")},
+			{"ns-in-list-value", &refmodel.Update{Actions: []refmodel.Action{{Kind: "SET", Path: refmodel.P("p"), RHS: uv(":v")}}}, val.Item{":v": val.List(nsab)},
+				func(it val.Item) (val.V, bool) { return refmodel.Path{{Name: "p"}, {IsIdx: true, Idx: 0}}.Resolve(it) }},
+			{"delete-other-member", &refmodel.Update{Actions: []refmodel.Action{{Kind: "DELETE", Path: refmodel.P("nsab77"), RHS: uv(":v")}}}, val.Item{":v": val.NS("77")}, top("nsab77")},
+			{"add-other-member", &refmodel.Update{Actions: []refmodel.Action{{Kind: "ADD", Path: refmodel.P("nsab"), RHS: uv(":v")}}}, val.Item{":v": val.NS("77")}, top("nsab")},
+		}
+		for _, f := range nsForms {
+			if val.NumEqual(a, "77") || val.NumEqual(b, "77") {
+				continue
+			}
+			it := val.Item{"nsab": nsab, "nsab77": val.NS(a, b, "77"), "z": val.Str("bystander")}
+			want := nsab
+			if f.name == "add-other-member" {
+				want = val.NS(a, b, "77")
+			}
+			got, msg, site, after := updateDirect(f.u.Render(map[string]string{}, rrCanon), nil, it, f.vals)
+			x.r.Evals++
+			x.r.Counters["store_exactly_ns"]++
+			wit := map[string]interface{}{"a": a, "b": b, "kind": f.name}
+			if got == "panic" {
+				x.viol("runtime-panic", site, fmt.Sprintf("%s with {%s, %s}: panic %s", f.name, a, b, msg), wit)
+				continue
+			}
+			if got != "ok" {
+				x.viol("store-rejected", f.name, fmt.Sprintf("%s with {%s, %s} rejected: %s", f.name, a, b, msg), wit)
+				continue
+			}
+			v, ok := f.read(after)
+			if !ok || !val.Equal(v, want) {
+				if ok && explainedByFloatRoundTrip(v, want) && len(v.Set) < len(want.Set) {
+					// listed finding: members that are equal as doubles are one member (NumberSet is map[float64]bool)
+					x.viol("stored-number-set-differs~float64", "members-equal-as-doubles-merge", fmt.Sprintf("%s with {%s, %s} stored %s", f.name, a, b, v.Canon()), wit)
+					continue
+				}
+				x.viol("stored-number-set-differs", f.name, fmt.Sprintf("%s with {%s, %s} stored %s", f.name, a, b, v.Canon()), wit)
+			}
+		}
+	}
 	for _, f := range forms {
 		it := val.Item{"n": val.Num(a), "m": val.Map(map[string]val.V{"k": val.Num(a), "o": val.Str("x")}), "l": val.List(val.Num(a), val.Str("x")), "z": val.Str("bystander")}
 		got, msg, site, after := updateDirect(f.u.Render(map[string]string{}, rrCanon), nil, it, f.vals)
@@ -276,17 +321,18 @@ func explainedByFloatRoundTrip(got, orig val.V) bool {
 	case val.KN:
 		return val.NumEqual(got.Str, f64str(f64(orig.Str)))
 	case val.KNS:
+		// equal when every member is looked at in double precision (members that are equal as doubles merge,
+		// whichever numeral survives)
 		a := []string{}
 		for _, m := range orig.Set {
 			a = append(a, val.MustDec(f64str(f64(m))).String())
 		}
 		b := []string{}
 		for _, m := range got.Set {
-			d, err := val.ParseDec(m)
-			if err != nil {
+			if _, err := val.ParseDec(m); err != nil {
 				return false
 			}
-			b = append(b, d.String())
+			b = append(b, val.MustDec(f64str(f64(m))).String())
 		}
 		sort.Strings(a)
 		sort.Strings(b)
